@@ -3,6 +3,7 @@ import PetgraphModel.Proofs.C13Vf2
 import PetgraphModel.Proofs.C13W2Top
 import PetgraphModel.Proofs.C13W2Spec
 import PetgraphModel.Proofs.C13W2Iso
+import PetgraphModel.Proofs.C13W3Relabel
 /-
 C13 — the VF2 family agrees with the definition of (sub)graph isomorphism.
 
@@ -22,6 +23,12 @@ What is proved here, for ALL graphs, weights and predicates:
   the specification; `true` from the model's `is_isomorphic*` implies `Iso` / `SubIso`.  Its COMPLETENESS
   (every embedding is yielded, exactly once; `None` only if there is none) is proved in wave 2 for the iterator:
   `C13_vf2_complete` (the statement `C13_vf2_complete_statement` as first written is false, see there).
+  Wave 3 removes the remaining conditions: the search TERMINATES within the explicit bound `explicitBound I`
+  (`C13_vf2_terminates`, `C13_vf2_step_decreases`, `C13_vf2_fuel_mono`), the iff / exactness theorems hold for
+  every fuel `≥ explicitBound I` (`…_fuel`) and for the model's `bigFuel` under `explicitBound I ≤ bigFuel`
+  (`…_bounded`; true for all graphs on ≤ 9 nodes), the empty pattern is covered (`C13_vf2_empty_pattern`), the
+  iterator's end flag is always `true` (`C13_vf2_iter_flag`), and the model's answers are invariant under
+  relabeling the concrete indices (`C13_vf2_relabel_invariant`, `…_iter`).
 
 VF2 itself (petgraph's search) is tied to this reference per run: `./check C13` compares the implementation's
 answers with the oracle (spec level) and with the mirror model (exactly, including the yield order).
@@ -453,6 +460,322 @@ choice is revised — the first `next()` runs out of `bigFuel`, which `iterLoop`
 
 end Vf2
 
+/-! ### wave 3: termination with an explicit bound, fuel-generic wrappers, the empty pattern, the end flag,
+relabeling invariance of the model's answers
+
+The wave-2 theorems above are conditional on the fixed fuel `bigFuel` hard-wired into `tryMatch` / `iterLoop`
+(`hfuel`, `iterFuelOk`), exclude the empty pattern (`0 < I.g0.n`) and speak about the iterator only when its end
+flag is `true`.  Here:
+
+* the frame-stack search TERMINATES: a potential of the stack (`Phi`) strictly decreases with every loop
+  iteration; `explicitBound I = outerCost n0 n1 n0 + 1`, with `outerCost k = 1 + (n1 - (n0-k))·(2 + outerCost (k-1))`
+  (≈ 3 · the number of partial injective mappings, `≤ 3·(n1+1)^n0`, and `≤ bigFuel` whenever `n0, n1 ≤ 9`),
+  suffices for every `next()` call; the loop is monotone in its fuel;
+* `tryMatchF` / `isoModelF` / `subModelF` / `iterLoopF` / `iterModelF` are the wrappers over an arbitrary fuel,
+  the model's are their instances at `bigFuel`; the iff theorems hold for every fuel `≥ explicitBound I`, the
+  `_bounded` versions are the instances at `bigFuel`; none of them excludes the empty pattern;
+* out of fuel is NOT reported by the model: `tryMatch` maps it to `false`, `iterLoop` to "iterator ended"
+  (end flag `true`) — so the end flag of `iterModel` is `true` for ANY fuel (`C13_vf2_iter_flag`), and only
+  the fuel condition makes the answer complete. -/
+
+section Vf2W3
+open PetgraphModel.C13.Vf2
+
+/-- the model's wrappers are the fuel-generic ones at `bigFuel` -/
+theorem C13_vf2_fuel_instances (I : Inst) :
+    (∀ sub, tryMatch I sub = tryMatchF I sub bigFuel) ∧ isoModel I = isoModelF I bigFuel ∧
+    subModel I = subModelF I bigFuel ∧ (∀ k m acc, iterLoop I k m acc = iterLoopF I bigFuel k m acc) ∧
+    iterModel I = iterModelF I bigFuel :=
+  ⟨tryMatch_eq_F I, isoModel_eq_F I, subModel_eq_F I, iterLoop_eq_F I, iterModel_eq_F I⟩
+
+/-- fuel monotonicity: once a `next()` call ends within `fuel` loop iterations, every larger fuel gives the same
+state and the same answer (any state, both modes) -/
+theorem C13_vf2_fuel_mono (I : Inst) (sub : Bool) (fuel fuel' : Nat) (m : M) (x : M × Result)
+    (h : isomorphisms I sub fuel m = some x) (hle : fuel ≤ fuel') : isomorphisms I sub fuel' m = some x :=
+  isomorphisms_mono h hle
+
+/-- every loop iteration strictly decreases the potential of the frame stack -/
+theorem C13_vf2_step_decreases (I : Inst) (h0 : cgOkB I.g0 = true) (h1 : cgOkB I.g1 = true)
+    (hd : I.g0.directed = I.g1.directed) (sub : Bool) (m : M) (fr : Frame) (rest : List Frame) (result : Result)
+    (hinv : Inv I m) (hs : m.stack = fr :: rest) (hg : ∀ mp, result = some mp → Final I mp)
+    (m2 : M) (r2 : Result) (chk : Bool)
+    (h : frameStep I sub { m with stack := rest } fr result = (m2, r2, chk)) :
+    Phi I m2.stack < Phi I m.stack :=
+  frameStep_pot (cgOkB_sound h0) (cgOkB_sound h1) hd hinv hs hg h
+
+/-- TERMINATION with an explicit bound: the first `next()` call ends within `explicitBound I` loop iterations,
+and so does every later one — from any state satisfying the invariant whose potential is below the fuel, the
+call returns, the invariant holds again and the potential has not grown (both modes) -/
+theorem C13_vf2_terminates (I : Inst) (h0 : cgOkB I.g0 = true) (h1 : cgOkB I.g1 = true)
+    (hd : I.g0.directed = I.g1.directed) (sub : Bool) :
+    Phi I (M.init I).stack + 1 = explicitBound I ∧
+    (∀ fuel, explicitBound I ≤ fuel → (isomorphisms I sub fuel (M.init I)).isSome = true) ∧
+    ∀ (fuel : Nat) (m : M), Inv I m → Phi I m.stack < fuel →
+      ∃ m' r, isomorphisms I sub fuel m = some (m', r) ∧ Inv I m' ∧ Phi I m'.stack ≤ Phi I m.stack := by
+  have ok0 := cgOkB_sound h0
+  have ok1 := cgOkB_sound h1
+  refine ⟨Phi_init I, fun fuel hb => isomorphisms_init_terminates ok0 ok1 hd sub hb, ?_⟩
+  intro fuel m hinv hlt
+  obtain ⟨m', r, h, hle⟩ := isomorphisms_terminates ok0 ok1 hd sub hinv hlt
+  exact ⟨m', r, h, (isomorphisms_sound ok0 ok1 hd sub fuel m m' r hinv h).1, hle⟩
+
+/-- the bound in closed form -/
+theorem C13_vf2_explicitBound_le_pow (I : Inst) : explicitBound I + 1 ≤ 3 * (I.g1.n + 1) ^ I.g0.n := by
+  have := outerCost_le_pow I.g0.n I.g1.n I.g0.n
+  unfold explicitBound
+  omega
+
+/-- `bigFuel` suffices for all graphs on at most 9 nodes (the driver runs at most 6 / 7) -/
+theorem C13_vf2_explicitBound_small (I : Inst) (hn0 : I.g0.n ≤ 9) (hn1 : I.g1.n ≤ 9) :
+    explicitBound I ≤ bigFuel := by
+  have key : ∀ a, a < 10 → ∀ b, b < 10 → outerCost a b a + 1 ≤ 4000000 := by decide
+  exact key _ (by omega) _ (by omega)
+
+/-- the fuel side conditions of the wave-2 theorems follow from the explicit bound -/
+theorem C13_vf2_fuelOk_of_bound (I : Inst) (h0 : cgOkB I.g0 = true) (h1 : cgOkB I.g1 = true)
+    (hd : I.g0.directed = I.g1.directed) (hb : explicitBound I ≤ bigFuel) :
+    iterFuelOk I = true ∧ ∀ sub, (isomorphisms I sub bigFuel (M.init I)).isSome = true :=
+  ⟨iterFuelOk_of_bound (cgOkB_sound h0) (cgOkB_sound h1) hd hb,
+   fun sub => isomorphisms_init_terminates (cgOkB_sound h0) (cgOkB_sound h1) hd sub hb⟩
+
+/-- the EMPTY PATTERN (`n0 = 0`, the repaired D30 path), any fuel: `is_isomorphic_subgraph*` answers `true`
+and the empty pattern embeds; `subgraph_isomorphisms_iter` yields exactly one mapping, the empty one, and then
+ends; the only valid complete mapping is the empty vector; `is_isomorphic*` answers `true` exactly when the
+target has no node (and its `edge_count()` is 0), which is what `Iso` says -/
+theorem C13_vf2_empty_pattern_fuel (I : Inst) (hn : I.g0.n = 0) (e0 : ECountOk I.g0) (fuel : Nat) :
+    subModelF I fuel = true ∧ SubIso I.problem ∧
+    iterModelF I fuel = some ([[]], true) ∧ (∀ mp, Final I mp ↔ mp = []) ∧ toAbstract I [] = [] ∧
+    (isoModelF I fuel = true ↔ I.g1.n = 0 ∧ I.g1.ecount = 0) ∧ (Iso I.problem ↔ I.g1.n = 0) ∧
+    (ECountOk I.g1 → (isoModelF I fuel = true ↔ Iso I.problem)) := by
+  have hec := ecount_of_zero hn e0
+  have hiso : isoModelF I fuel = true ↔ I.g1.n = 0 ∧ I.g1.ecount = 0 := by
+    unfold isoModelF
+    rw [tryMatchF_of_zero hn, hn, hec]
+    simp only [Bool.or_eq_true, bne_iff_ne, ne_eq, Bool.if_false_left, Bool.and_true, Bool.not_eq_true']
+    rw [decide_eq_false_iff_not]
+    omega
+  refine ⟨?_, ⟨id, embeds_of_zero hn id⟩, ?_, final_of_zero hn, toAbstract_of_zero hn [], hiso, iso_of_zero hn, ?_⟩
+  · unfold subModelF
+    rw [tryMatchF_of_zero hn, hn, hec]
+    simp
+  · unfold iterModelF
+    rw [iterLoopF_of_zero hn, hn, hec]
+    simp
+  · intro e1
+    rw [hiso, iso_of_zero hn]
+    exact ⟨fun h => h.1, fun h => ⟨h, ecount_of_zero h e1⟩⟩
+
+/-- the empty pattern, for the model's own wrappers (`bigFuel`) -/
+theorem C13_vf2_empty_pattern (I : Inst) (hn : I.g0.n = 0) (e0 : ECountOk I.g0) :
+    subModel I = true ∧ SubIso I.problem ∧
+    iterModel I = some ([[]], true) ∧ (∀ mp, Final I mp ↔ mp = []) ∧ toAbstract I [] = [] ∧
+    (isoModel I = true ↔ I.g1.n = 0 ∧ I.g1.ecount = 0) ∧ (Iso I.problem ↔ I.g1.n = 0) ∧
+    (ECountOk I.g1 → (isoModel I = true ↔ Iso I.problem)) := by
+  rw [subModel_eq_F, iterModel_eq_F, isoModel_eq_F]
+  exact C13_vf2_empty_pattern_fuel I hn e0 bigFuel
+
+/-- `is_isomorphic_subgraph[_matching]` over any fuel `≥ explicitBound I` decides `SubIso` (all patterns,
+the empty one included) -/
+theorem C13_vf2_sub_iff_fuel (I : Inst) (h0 : cgOkB I.g0 = true) (h1 : cgOkB I.g1 = true)
+    (hd : I.g0.directed = I.g1.directed) (e0 : ECountOk I.g0) (e1 : ECountOk I.g1)
+    (hin : inNodupB I.g0 = true) (fuel : Nat) (hb : explicitBound I ≤ fuel) :
+    subModelF I fuel = true ↔ SubIso I.problem := by
+  have ok0 := cgOkB_sound h0
+  have ok1 := cgOkB_sound h1
+  by_cases hn : I.g0.n = 0
+  · have := C13_vf2_empty_pattern_fuel I hn e0 fuel
+    exact ⟨fun _ => this.2.1, fun _ => this.1⟩
+  have hn : 0 < I.g0.n := Nat.pos_of_ne_zero hn
+  constructor
+  · intro h
+    unfold subModelF at h
+    split at h
+    · cases h
+    · obtain ⟨mp, hf⟩ := tryMatchF_sound ok0 ok1 hd h
+      exact ⟨_, hf.embeds ok0 ok1⟩
+  · rintro ⟨f, e⟩
+    have hf := Final.of_embeds ok0 ok1 e
+    cases h : subModelF I fuel with
+    | true => rfl
+    | false =>
+      exfalso
+      unfold subModelF at h
+      split at h
+      · rename_i hc
+        simp only [Bool.or_eq_true, decide_eq_true_eq] at hc
+        have := hf.node_count_le
+        have := hf.ecount_le ok0 ok1 hd e0 e1
+        omega
+      · exact tryMatchF_complete ok0 ok1 hd (inNodupB_sound h0 hin) hn (ExtT.sizesOkS_sub ok0 ok1 hd) hb h ⟨_, hf⟩
+
+/-- `is_isomorphic[_matching]` over any fuel `≥ explicitBound I` decides `Iso` (all patterns) -/
+theorem C13_vf2_iso_iff_fuel (I : Inst) (h0 : cgOkB I.g0 = true) (h1 : cgOkB I.g1 = true)
+    (hd : I.g0.directed = I.g1.directed) (e0 : ECountOk I.g0) (e1 : ECountOk I.g1)
+    (hin : inNodupB I.g0 = true) (fuel : Nat) (hb : explicitBound I ≤ fuel) :
+    isoModelF I fuel = true ↔ Iso I.problem := by
+  have ok0 := cgOkB_sound h0
+  have ok1 := cgOkB_sound h1
+  by_cases hn : I.g0.n = 0
+  · exact (C13_vf2_empty_pattern_fuel I hn e0 fuel).2.2.2.2.2.2.2 e1
+  have hn : 0 < I.g0.n := Nat.pos_of_ne_zero hn
+  constructor
+  · intro h
+    unfold isoModelF at h
+    split at h
+    · cases h
+    · rename_i hne
+      simp only [Bool.or_eq_true, bne_iff_ne, ne_eq, not_or, Decidable.not_not] at hne
+      obtain ⟨mp, hf⟩ := tryMatchF_sound ok0 ok1 hd h
+      refine ⟨_, hf.embeds ok0 ok1, ?_⟩
+      intro b hb
+      simp only [Inst.problem, CG.toMGraph, List.mem_range] at hb ⊢
+      obtain ⟨i, hi, hm⟩ := hf.onto hne.1 b hb
+      exact ⟨i, hi, by simp [hm]⟩
+  · rintro ⟨f, e, honto⟩
+    have hf := Final.of_embeds ok0 ok1 e
+    have hnn : I.g0.n = I.g1.n := by
+      apply node_count_eq_of_onto hf (f := f)
+      intro b hb
+      obtain ⟨a, ha, hab⟩ := honto b (by simpa [Inst.problem, CG.toMGraph] using hb)
+      exact ⟨a, by simpa [Inst.problem, CG.toMGraph] using ha, hab⟩
+    cases h : isoModelF I fuel with
+    | true => rfl
+    | false =>
+      exfalso
+      unfold isoModelF at h
+      split at h
+      · rename_i hc
+        simp only [Bool.or_eq_true, bne_iff_ne, ne_eq] at hc
+        have := hf.ecount_eq ok0 ok1 hd e0 e1 hnn
+        rcases hc with hc | hc
+        · exact hc hnn
+        · exact hc this
+      · exact tryMatchF_complete ok0 ok1 hd (inNodupB_sound h0 hin) hn (ExtT.sizesOkS_iso ok0 ok1 hd hnn) hb h
+          ⟨_, hf⟩
+
+/-- `C13_vf2_sub_iff` with the fuel hypothesis replaced by the explicit bound, and without excluding the
+empty pattern -/
+theorem C13_vf2_sub_iff_bounded (I : Inst) (h0 : cgOkB I.g0 = true) (h1 : cgOkB I.g1 = true)
+    (hd : I.g0.directed = I.g1.directed) (e0 : ECountOk I.g0) (e1 : ECountOk I.g1)
+    (hin : inNodupB I.g0 = true) (hb : explicitBound I ≤ bigFuel) :
+    subModel I = true ↔ SubIso I.problem := by
+  rw [subModel_eq_F]
+  exact C13_vf2_sub_iff_fuel I h0 h1 hd e0 e1 hin bigFuel hb
+
+/-- `C13_vf2_iso_iff` with the fuel hypothesis replaced by the explicit bound, and without excluding the
+empty pattern -/
+theorem C13_vf2_iso_iff_bounded (I : Inst) (h0 : cgOkB I.g0 = true) (h1 : cgOkB I.g1 = true)
+    (hd : I.g0.directed = I.g1.directed) (e0 : ECountOk I.g0) (e1 : ECountOk I.g1)
+    (hin : inNodupB I.g0 = true) (hb : explicitBound I ≤ bigFuel) :
+    isoModel I = true ↔ Iso I.problem := by
+  rw [isoModel_eq_F]
+  exact C13_vf2_iso_iff_fuel I h0 h1 hd e0 e1 hin bigFuel hb
+
+/-- the END FLAG of the drained iterator is `true` — for ANY fuel, the model's `bigFuel` included: the
+`n1!/(n1-n0)! + 2` calls always drain it, because no valid mapping is yielded twice and there are at most
+`n1!/(n1-n0)!` of them; a call that runs out of fuel is reported as the end as well.  (So the hypothesis
+`iterModel I = some (vs, true)` of the wave-2 theorems only says `iterModel I ≠ none`.) -/
+theorem C13_vf2_iter_flag (I : Inst) (h0 : cgOkB I.g0 = true) (h1 : cgOkB I.g1 = true)
+    (hd : I.g0.directed = I.g1.directed)
+    (p0 : I.g0.abs.Perm (List.range I.g0.n)) (p1 : I.g1.abs.Perm (List.range I.g1.n))
+    (hin : inNodupB I.g0 = true) :
+    (∀ vs fin, iterModel I = some (vs, fin) → fin = true) ∧
+    ∀ fuel vs fin, iterModelF I fuel = some (vs, fin) → fin = true := by
+  have key : ∀ fuel vs fin, iterModelF I fuel = some (vs, fin) → fin = true := fun fuel vs fin h =>
+    iterModelF_flag (cgOkB_sound h0) (cgOkB_sound h1) hd (inNodupB_sound h0 hin) p0 p1 fuel h
+  refine ⟨fun vs fin h => ?_, key⟩
+  rw [iterModel_eq_F] at h
+  exact key bigFuel vs fin h
+
+/-- `subgraph_isomorphisms_iter` over any fuel `≥ explicitBound I` (all patterns): the end flag is `true`, the
+yielded vectors are pairwise different and are exactly the (abstract vectors of the) valid complete mappings -/
+theorem C13_vf2_iter_exact_fuel (I : Inst) (h0 : cgOkB I.g0 = true) (h1 : cgOkB I.g1 = true)
+    (hd : I.g0.directed = I.g1.directed)
+    (p0 : I.g0.abs.Perm (List.range I.g0.n)) (p1 : I.g1.abs.Perm (List.range I.g1.n))
+    (hin : inNodupB I.g0 = true) (fuel : Nat) (hb : explicitBound I ≤ fuel)
+    (vs : List (List Nat)) (fin : Bool) (h : iterModelF I fuel = some (vs, fin)) :
+    fin = true ∧ vs.Nodup ∧ ∀ v, v ∈ vs ↔ ∃ mp, Final I mp ∧ v = toAbstract I mp :=
+  iterModelF_exact (cgOkB_sound h0) (cgOkB_sound h1) hd (inNodupB_sound h0 hin) p0 p1 hb h
+
+/-- `C13_vf2_iter_exact` for the model's own iterator with the fuel hypothesis replaced by the explicit bound,
+for whatever end flag, and without excluding the empty pattern -/
+theorem C13_vf2_iter_exact_bounded (I : Inst) (h0 : cgOkB I.g0 = true) (h1 : cgOkB I.g1 = true)
+    (hd : I.g0.directed = I.g1.directed)
+    (p0 : I.g0.abs.Perm (List.range I.g0.n)) (p1 : I.g1.abs.Perm (List.range I.g1.n))
+    (hin : inNodupB I.g0 = true) (hb : explicitBound I ≤ bigFuel)
+    (vs : List (List Nat)) (fin : Bool) (h : iterModel I = some (vs, fin)) :
+    fin = true ∧ vs.Nodup ∧ ∀ v, v ∈ vs ↔ ∃ mp, Final I mp ∧ v = toAbstract I mp := by
+  rw [iterModel_eq_F] at h
+  exact C13_vf2_iter_exact_fuel I h0 h1 hd p0 p1 hin bigFuel hb vs fin h
+
+/-- the same against the specification: every embedding of the problem is yielded (exactly once), everything
+yielded is an embedding; and `None` only if there is no embedding -/
+theorem C13_vf2_iter_spec_bounded (I : Inst) (h0 : cgOkB I.g0 = true) (h1 : cgOkB I.g1 = true)
+    (hd : I.g0.directed = I.g1.directed) (e0 : ECountOk I.g0) (e1 : ECountOk I.g1)
+    (p0 : I.g0.abs.Perm (List.range I.g0.n)) (p1 : I.g1.abs.Perm (List.range I.g1.n))
+    (hin : inNodupB I.g0 = true) (hb : explicitBound I ≤ bigFuel) :
+    (iterModel I = none → ¬ SubIso I.problem) ∧
+    ∀ vs fin, iterModel I = some (vs, fin) →
+      fin = true ∧ vs.Nodup ∧ (∀ f, Embeds I.problem f → toAbstract I (vecOf I f) ∈ vs) ∧
+      (∀ v ∈ vs, ∃ mp, Embeds I.problem (vecFun mp) ∧ v = toAbstract I mp) := by
+  refine ⟨C13_vf2_none_complete_spec I h0 h1 hd e0 e1, fun vs fin h => ?_⟩
+  obtain ⟨hfin, hnd, hmem⟩ := C13_vf2_iter_exact_bounded I h0 h1 hd p0 p1 hin hb vs fin h
+  refine ⟨hfin, hnd, fun f e => (hmem _).mpr ⟨_, Final.of_embeds (cgOkB_sound h0) (cgOkB_sound h1) e, rfl⟩, ?_⟩
+  intro v hv
+  obtain ⟨mp, hf, rfl⟩ := (hmem v).mp hv
+  exact ⟨mp, hf.embeds (cgOkB_sound h0) (cgOkB_sound h1), rfl⟩
+
+/-- RELABELING INVARIANCE OF THE MODEL'S ANSWERS.  Let `I'` be an instance that poses the problem of `I`
+relabeled by `σ0` (pattern) and `σ1` (target) — explicitly: `I'.problem` is the same problem as
+`I.problem.relabel σ0 τ0 σ1 τ1` in the sense of `Problem.SameAs` (same nodes, same edge sets, same weights
+and predicates; an EQUATION between the two records is the special case `Problem.SameAs.of_eq`, but it forces
+`σ` to be the identity on the nodes because `Inst.problem` lists the nodes as `List.range n`).  Then, both
+instances satisfying the executable side conditions and the fuel bound, the model gives the same Boolean
+answers on both. -/
+theorem C13_vf2_relabel_invariant (I I' : Inst) (ok : InstOk I) (ok' : InstOk I')
+    (hb : explicitBound I ≤ bigFuel) (hb' : explicitBound I' ≤ bigFuel)
+    (σ0 τ0 σ1 τ1 : Nat → Nat)
+    (hl0 : ∀ a, a < I.g0.n → τ0 (σ0 a) = a) (hl1 : ∀ b, b < I.g1.n → τ1 (σ1 b) = b)
+    (hP : Problem.SameAs I'.problem (I.problem.relabel σ0 τ0 σ1 τ1)) :
+    subModel I' = subModel I ∧ isoModel I' = isoModel I := by
+  have wf0 := toMGraph_wf (cgOkB_sound ok.h0)
+  have wf1 := toMGraph_wf (cgOkB_sound ok.h1)
+  have hl0' : ∀ a ∈ I.problem.g0.nodes, τ0 (σ0 a) = a := fun a ha =>
+    hl0 a (by simpa [Inst.problem, CG.toMGraph] using ha)
+  have hl1' : ∀ b ∈ I.problem.g1.nodes, τ1 (σ1 b) = b := fun b hb =>
+    hl1 b (by simpa [Inst.problem, CG.toMGraph] using hb)
+  have inv := C13_relabel_invariant I.problem σ0 τ0 σ1 τ1 wf0 wf1 hl0' hl1'
+  constructor
+  · apply Bool.eq_of_iff'
+    rw [C13_vf2_sub_iff_bounded I' ok'.h0 ok'.h1 ok'.hd ok'.e0 ok'.e1 ok'.hin hb',
+      C13_vf2_sub_iff_bounded I ok.h0 ok.h1 ok.hd ok.e0 ok.e1 ok.hin hb, hP.subIso_iff]
+    exact inv.2.1
+  · apply Bool.eq_of_iff'
+    rw [C13_vf2_iso_iff_bounded I' ok'.h0 ok'.h1 ok'.hd ok'.e0 ok'.e1 ok'.hin hb',
+      C13_vf2_iso_iff_bounded I ok.h0 ok.h1 ok.hd ok.e0 ok.e1 ok.hin hb, hP.iso_iff]
+    exact inv.1
+
+/-- relabeling invariance of the model's ITERATOR: if `I'` is `I` with its concrete indices relabeled by `σ0` /
+`σ1` (`Relabeled`: the `problem` relation above plus the reporting vectors carried along,
+`I'.g0.abs[σ0 i] = I.g0.abs[i]`, `I'.g1.abs[σ1 j] = I.g1.abs[j]`), both drained iterators yield the same
+abstract vectors, each exactly once (in a possibly different order) -/
+theorem C13_vf2_relabel_invariant_iter (I I' : Inst) (ok : InstOk I) (ok' : InstOk I')
+    (hb : explicitBound I ≤ bigFuel) (hb' : explicitBound I' ≤ bigFuel)
+    (p0 : I.g0.abs.Perm (List.range I.g0.n)) (p1 : I.g1.abs.Perm (List.range I.g1.n))
+    (p0' : I'.g0.abs.Perm (List.range I'.g0.n)) (p1' : I'.g1.abs.Perm (List.range I'.g1.n))
+    (σ0 τ0 σ1 τ1 : Nat → Nat) (r : Relabeled I I' σ0 τ0 σ1 τ1)
+    (vs vs' : List (List Nat)) (fin fin' : Bool)
+    (h : iterModel I = some (vs, fin)) (h' : iterModel I' = some (vs', fin')) :
+    vs'.Perm vs ∧ fin = true ∧ fin' = true := by
+  rw [iterModel_eq_F] at h h'
+  refine ⟨iterModelF_relabel r (cgOkB_sound ok.h0) (cgOkB_sound ok.h1) ok.hd (inNodupB_sound ok.h0 ok.hin)
+    (cgOkB_sound ok'.h0) (cgOkB_sound ok'.h1) ok'.hd (inNodupB_sound ok'.h0 ok'.hin) p0 p1 p0' p1' hb hb' h h',
+    ?_, ?_⟩
+  · exact (C13_vf2_iter_flag I ok.h0 ok.h1 ok.hd p0 p1 ok.hin).2 bigFuel vs fin h
+  · exact (C13_vf2_iter_flag I' ok'.h0 ok'.h1 ok'.hd p0' p1' ok'.hin).2 bigFuel vs' fin' h'
+
+end Vf2W3
+
 /-! ### a non-trivial instance: the hypotheses are satisfiable and the oracle computes -/
 
 /-- directed 3-cycle with a pendant arc vs. a relabeled copy with one extra node -/
@@ -483,5 +806,39 @@ example : Vf2.ECountOk exI.g0 ∧ Vf2.ECountOk exI.g1 ∧ Vf2.iterFuelOk exI = t
     Vf2.inNodupB exI.g0 = true ∧
     (Vf2.isomorphisms exI true Vf2.bigFuel (Vf2.M.init exI)).isSome = true ∧
     (Vf2.isomorphisms exI false Vf2.bigFuel (Vf2.M.init exI)).isSome = true := by decide
+
+/-! wave 3: the explicit bound and the relabeling theorems on the example -/
+
+example : Vf2.InstOk exI := by decide
+example : Vf2.explicitBound exI = 122 ∧ Vf2.explicitBound exI ≤ Vf2.bigFuel := by decide
+example : (Vf2.isomorphisms exI true 122 (Vf2.M.init exI)).isSome = true ∧
+    (Vf2.isomorphisms exI true 20 (Vf2.M.init exI)).isSome = false := by decide
+
+/-- `exI` with the concrete indices 0 and 1 of g1 exchanged (and `abs` carried along) -/
+def exI' : Vf2.Inst :=
+  { exI with
+    g1 := { n := 4, ecount := 4, directed := true, outE := [[(3, 1), (1, 0)], [], [(0, 0)], [(2, 1)]],
+            inN := [[2], [0], [3], [0]], abs := [3, 1, 0, 2], nw := [0, 0, 0, 0] } }
+
+def exSw (x : Nat) : Nat := if x = 0 then 1 else if x = 1 then 0 else x
+
+/-- the hypotheses of `C13_vf2_relabel_invariant[_iter]` are satisfiable by a non-identity relabeling -/
+theorem exI'_relabeled : Vf2.Relabeled exI exI' id id exSw exSw := by
+  refine ⟨fun _ _ => rfl, by decide, ⟨rfl, rfl, fun a => List.Perm.mem_iff (by decide),
+    fun a => List.Perm.mem_iff (by decide), fun e => List.Perm.mem_iff (by decide),
+    fun e => List.Perm.mem_iff (by decide), by decide, by decide, rfl, rfl⟩, by decide, by decide⟩
+
+example : Vf2.subModel exI' = Vf2.subModel exI ∧ Vf2.isoModel exI' = Vf2.isoModel exI :=
+  C13_vf2_relabel_invariant exI exI' (by decide) (by decide) (by decide) (by decide) id id exSw exSw
+    exI'_relabeled.hl0 exI'_relabeled.hl1 exI'_relabeled.same
+example : Vf2.iterModel exI' = some ([[2, 0, 3]], true) := by decide
+
+/-- the empty pattern against a one-node target -/
+def exEmpty : Vf2.Inst :=
+  { g0 := { n := 0, ecount := 0, directed := true, outE := [], inN := [], abs := [], nw := [] },
+    g1 := { n := 1, ecount := 1, directed := true, outE := [[(0, 0)]], inN := [[0]], abs := [0], nw := [0] },
+    nm := fun _ _ => true, em := fun _ _ => true, semantic := false }
+example : Vf2.iterModel exEmpty = some ([[]], true) ∧ Vf2.subModel exEmpty = true ∧ Vf2.isoModel exEmpty = false := by
+  decide
 
 end PetgraphModel.C13T
